@@ -410,7 +410,7 @@ func ruleAcceptRetryable(c *Checker) {
 			if !ok || ret.Block().Comment == "recover" {
 				return
 			}
-			if !hasFact(ret.Block(), func(f Fact) bool { return factRel(f, isValue(errv), isNilConst) == "!=" }) {
+			if !hasFact(ret.Block(), func(f Fact) bool { return factRel(f, isCarrierOf(errv), isNilConst) == "!=" }) {
 				return
 			}
 			nLeg++
